@@ -311,7 +311,8 @@ func c04RaceScenario(kind string) *explore.Scenario {
 		Family: "handlers-race",
 		Name:   "handlers-race/" + kind,
 		Params: map[string]interface{}{"kind": kind},
-		Opt:    vx.Options{MaxSteps: 40000},
+		// statement-granularity scheduling points and the race monitor on the handler-set structures
+		Opt: vx.Options{MaxSteps: 40000, StmtMode: true},
 	}
 	sc.Main = func(env *vx.Env) {
 		s, err := StartSession(env, "me", nil, nil)
@@ -329,6 +330,7 @@ func c04RaceScenario(kind string) *explore.Scenario {
 		c.Handle("foo", mk("h2"))
 		s.Feed(":o!u@h FOO :e0")
 		vx.Observe("ev", "quiet-0")
+		vx.StmtMode(true)
 		done := vx.NewEvent("racer-done")
 		env.Go("racer", func() {
 			vx.Observe("ev", "call-begin")
@@ -349,6 +351,7 @@ func c04RaceScenario(kind string) *explore.Scenario {
 		}
 		done.Wait()
 		vx.Quiesce()
+		vx.StmtMode(false)
 		vx.Observe("ev", "quiet-1")
 		s.Feed(":o!u@h foo :e3")
 		s.End()
@@ -360,6 +363,10 @@ func c04RaceScenario(kind string) *explore.Scenario {
 		}
 		ev := o.Log("ev")
 		var fs []explore.Finding
+		for _, r := range o.Races {
+			fs = append(fs, explore.Finding{Oracle: "data-race-on-handler-set", Msg: "unordered conflicting accesses to the handler registry: " + r.String()})
+			break
+		}
 		bad := func(msg string) {
 			fs = append(fs, explore.Finding{Oracle: "invocation-count", Msg: msg + " :: " + strings.Join(ev, "; ")})
 		}
